@@ -119,7 +119,7 @@ class World:
 
     # -- result -------------------------------------------------------------------
 
-    def check_loop_health(self, allow_hang=False):
+    def check_loop_health(self, allow_hang=False, loop_errors=True):
         sim = self.sim
 
         if sim.loop.capped:
@@ -134,10 +134,31 @@ class World:
                                ', '.join(hung[:8]), sig=hung[0])
 
         for msg, exc in sim.loop_errors:
-            self.violation('loop-exception', msg + ' ' + exc)
+            if 'never retrieved' in msg:
+                # an orphaned future, reported at GC time: untidy, but not
+                # an exception escaping from a callback into the loop
+                sim.probes['unretrieved_future_exception'] += 1
+            elif loop_errors:
+                self.violation('loop-exception', msg + ' ' + exc)
+            else:
+                sim.probes['loop_exception_seen'] += 1
 
     def result(self, nontrivial=True, sample=None):
         sim = self.sim
+        main = sim.main
+
+        if main.done() and not main.cancelled() and \
+                main.exception() is not None:
+            # the scenario driver itself crashed: a harness defect, never a
+            # pass and never a property violation
+            import traceback
+            exc = main.exception()
+            text = ''.join(traceback.format_exception(
+                type(exc), exc, exc.__traceback__))
+            self.close()
+            from .runner import HarnessError
+            raise HarnessError('scenario main() raised:\n' + text)
+
         sched = sim.tape.trimmed()
         sig = hashlib.sha256(
             (plan_digest(self.plan) + sim.sched_sigs.hexdigest() +
